@@ -174,9 +174,15 @@ def run(res, proof):
     for _ in range(60 if quick else 1500):
         S = sysgen.gen_system(rng)
         jobs.append({'text': sysgen.render(S, rng), 'mode': 'outcome', 'check_release': True})
+    for _ in range(60 if quick else 1500):
+        S = sysgen.gen_system(rng)
+        jobs.append({'text': sysgen.render(S, rng), 'mode': 'outcome', 'keep_only': rng.choice(['complexes', 'complexes', 'macrostates', 'reactions'])})
     for job, r in zip(jobs, reader.run_jobs(jobs)):
         res.evaluations += 1
         res.nontriv(job['text'])
+        if r.get('lost_while_kept'):
+            res.violation('reader-objects-lost-while-referenced', {'text': job['text'], 'kept': job.get('keep_only')}, '; '.join(r['lost_while_kept'][:4]),
+                          'what a kept complex / macrostate / reaction was built from stays alive and registered')
         if r.get('outcome') == 'ok' and (r.get('leaked') or r.get('names_left')):
             res.violation('reader-system-not-released', {'text': job['text']}, '%s objects alive, %s names bound after dropping the result and one gc pass'
                           % (r.get('leaked'), r.get('names_left')), 'everything released at the latest after one garbage-collection pass')
